@@ -222,6 +222,11 @@ def Q_em(vs):
     return "?em:" + vals(vs)
 
 
+def Q_et(vs):
+    """enforce with a TUPLE argument (the serde path of EnforceArgs)"""
+    return "?et:" + vals(vs)
+
+
 def Q_ec(k, vs):
     return "?ec:%s:%s" % (enc(k), vals(vs))
 
